@@ -162,6 +162,11 @@ def _gen_cases(tier, seed):
             for ka in kinds[:4]:
                 yield C(w="norm", shape=list(shp), ka=ka, fill=FILLS[int(rng.integers(0, 5))])
             if N >= 2:
+                # Kruskal / Tucker tensors that denote the zero tensor through cancellation (rank-deficient factors): the Gram-formula
+                # norm is the square root of a rounding-level number of either sign
+                for ka in ("ktensor", "ttensor"):
+                    yield C(w="zero_norm", shape=list(shp), ka=ka)
+            if N >= 2:
                 for _ in range(9):
                     yield C(w="innerprod", shape=list(shp), ka="tensor", kb="tensor", fill="all", fillB="all")
     # sparse operands with thousands of stored entries on both sides (any chunking of the subscript look-up must be invisible)
@@ -470,6 +475,32 @@ def _w_norm(case, ctx, rng, shape, N):
         # Kruskal/Tucker norms come from Gram formulas: sqrt of a cancellation-prone sum -> absolute bound on the square
         sq = float(np.sum(np.abs(A)) ** 2) + 1e-300
         ctx.check(np.ndim(got) == 0 and abs(float(got) ** 2 - want ** 2) <= 1e-9 * max(sq, want ** 2), op, "WRONG", f"norm {got!r} want {want!r}")
+
+
+def _w_zero_norm(case, ctx, rng, shape, N):
+    ctx.feat(ka=case["ka"], zero_by_cancellation=True)
+    U = [rng.standard_normal((s_, 2)) for s_ in shape]
+    c = rng.standard_normal(shape[-1])
+    U[-1] = np.stack([c, c], axis=1)                       # the last factor has two identical columns ...
+    if case["ka"] == "ktensor":
+        lam = float(rng.uniform(0.5, 2.0))
+        Uk = [np.stack([u[:, 0], u[:, 0]], axis=1) for u in U[:-1]] + [U[-1]]
+        X = ttb.ktensor([u.copy() for u in Uk], np.array([lam, -lam]))               # ... and the two components cancel
+        scale = lam * float(np.prod([np.linalg.norm(u[:, 0]) for u in Uk]))
+    else:
+        core = rng.standard_normal((2,) * N)
+        core = core - np.flip(core, axis=-1) * 0.0
+        core[..., 1] = -core[..., 0]                         # ... and the core cancels along that mode
+        X = ttb.ttensor(ttb.tensor(core.copy()), [u.copy() for u in U])
+        scale = float(np.linalg.norm(core)) * float(np.prod([np.linalg.norm(u, 2) for u in U]))
+    A = denote(X)
+    if float(np.max(np.abs(A))) > 1e-9 * scale:
+        raise AssertionError("generator: the cancelling construction does not denote (numerically) zero")
+    op = f"{case['ka']}.norm"
+    got, ok = _try(ctx, op, X.norm)
+    if ok:
+        ctx.check(np.ndim(got) == 0 and np.isfinite(float(got)) and 0.0 <= float(got) <= 1e-6 * scale, op, "WRONG",
+                  f"norm of a tensor that denotes zero (parts of size {scale:.3g}): {got!r}")
 
 
 def _w_contract(case, ctx, rng, shape, N):
